@@ -67,13 +67,22 @@ class ArrayLike:
     __hash__ = object.__hash__
 
 
+class BadRepr:
+    """str() and repr() raise: what the default notification exception handler formats into its log message."""
+
+    def __repr__(self):
+        raise RuntimeError("repr")
+
+    __str__ = __repr__
+
+
 class Marker:
     pass
 
 
 # the value pool; index = atom
 POOL = [Eq(1), Eq(1), Eq(2), float("nan"), float("nan"), EqRaises(), None, [1], [1], Marker(), Marker(), Incoherent(),
-        0, 0.0, ArrayLike()]
+        0, 0.0, ArrayLike(), BadRepr()]
 REJ, ALIAS = 9, 10            # pool[REJ] is rejected by the trait, pool[ALIAS] is converted to pool[0]
 MODES = {"none": ComparisonMode.none, "identity": ComparisonMode.identity, "equality": ComparisonMode.equality}
 
@@ -218,6 +227,23 @@ def make_otcany(hid):
     return f
 
 
+def make_once(a, kind):
+    if kind == "otc_once":
+        def f(obj, name, old, new):
+            a.on_trait_change(f, "x", remove=True)
+        a.on_trait_change(f, "x")
+    elif kind == "otcany_once":
+        def f(obj, name, old, new):
+            if name == "x":
+                a.on_trait_change(f, remove=True)
+        a.on_trait_change(f)
+    else:
+        def f(event):
+            a.observe(f, "x", remove=True)
+        a.observe(f, "x")
+    return f
+
+
 def make_obs(hid):
     def f(event):
         record(hid, event.old, event.new)
@@ -238,6 +264,10 @@ def run_case(case):
         elif m == "otcany":
             f = make_otcany(hid)
             a.on_trait_change(f)
+        elif m in ("otc_once", "otcany_once", "obs_once"):
+            # a handler that is NOT registered for the whole history: it unregisters itself while it is being
+            # notified.  It records nothing; the handlers that stay must not notice it.
+            f = make_once(a, m)
         elif m == "otcm":              # bound method of another object: method-listener path, weak reference to the owner
             owner = MethodOwner(hid)
             f = owner
@@ -259,6 +289,8 @@ def run_case(case):
                 a.x = POOL[op[1]]
             elif op[0] == "Delete":
                 del a.x
+            elif op[0] == "QuietAssign":
+                a.trait_set(trait_change_notify=False, x=POOL[op[1]])
             else:
                 a.x
             o = "Ok"
@@ -280,13 +312,20 @@ def main():
     if "--tables" in sys.argv:
         dlib.dump({"eq": eq, "ne": ne, "validate": [None if i == REJ else (0 if i == ALIAS else i) for i in range(len(POOL))]})
         return
-    push_exception_handler(handler=legacy_sink, reraise_exceptions=False)
-    obs_api.push_exception_handler(handler=observe_sink, reraise_exceptions=False)
-    try:
-        res = [{"steps": run_case(c)} for c in cases]
-    finally:
-        obs_api.pop_exception_handler()
-        pop_exception_handler()
+    res = []
+    for c in cases:
+        if c.get("sinkmode") == "default":
+            # the library's own default handlers (NotificationExceptionHandler._log_exception and the observe
+            # counterpart) format and log the exception; logging is disabled above, routing is not observable
+            res.append({"steps": run_case(c)})
+            continue
+        push_exception_handler(handler=legacy_sink, reraise_exceptions=False)
+        obs_api.push_exception_handler(handler=observe_sink, reraise_exceptions=False)
+        try:
+            res.append({"steps": run_case(c)})
+        finally:
+            obs_api.pop_exception_handler()
+            pop_exception_handler()
     dlib.dump(res)
 
 
